@@ -85,9 +85,17 @@ size_t Range::length() const {
         return m_cachedSize;
     }
 
-    // Offset by one to include the end value
-    double diff = std::abs(double(m_end-m_start)) + 1;
-    m_cachedSize = long(std::ceil(diff / std::abs(double(m_step))));
+    // Offset by one to include the end value.
+    // Integer arithmetic: a double cannot hold every span beyond 2^53.
+    long diff = m_end - m_start;
+    if (diff < 0) {
+        diff = -diff;
+    }
+    long step = m_step;
+    if (step < 0) {
+        step = -step;
+    }
+    m_cachedSize = diff / step + 1;
     m_isSizeCached = true;
     return m_cachedSize;
 }
